@@ -28,11 +28,17 @@ Definition far_past : Z := - 2305843009213693952.
 (* TriggerState: the fields the edge / level / auto passes read.
    [ts_autodelay] is the ORACLE integer  int(AutoDelay.Seconds()*SampleRate + 0.5)  supplied (and checked) by
    the harness: the float expression itself is not modelled. *)
-Record tstate := mkts {
+Record tstate := mkts_full {
   ts_auto : bool; ts_autodelay : Z; ts_autoveto : Z;
   ts_level : bool; ts_levelrising : bool; ts_levellevel : Z;
   ts_edge : bool; ts_edgerising : bool; ts_edgefalling : bool; ts_edgelevel : Z;
-  ts_emulti : bool }.
+  ts_emulti : bool;
+  (* the two EMTState parameters that EMTState.valid() reads (only to decide whether a request that switches
+     edge-multi on is REFUSED; edge-multi triggering itself is C08's model) *)
+  ts_emt_nmono : Z; ts_emt_zero : bool }.
+Definition mkts (auto : bool) (delay veto : Z) (lev rising : bool) (level : Z) (edge er ef : bool) (elevel : Z)
+                (em : bool) : tstate :=
+  mkts_full auto delay veto lev rising level edge er ef elevel em 0 false.
 
 (* DataStreamProcessor: record lengths, LastTrigger, the retained stream, trigger settings, and the copy of
    the record lengths inside EMTState that sizes the retained history *)
@@ -46,8 +52,8 @@ Definition set_last (d : dsp) (l : Z) : dsp :=
   mkdsp (d_nsamp d) (d_npre d) l (d_stream d) (d_ts d) (d_emt_nsamp d) (d_emt_npre d).
 
 Definition no_emulti (ts : tstate) : tstate :=
-  mkts (ts_auto ts) (ts_autodelay ts) (ts_autoveto ts) (ts_level ts) (ts_levelrising ts) (ts_levellevel ts)
-       (ts_edge ts) (ts_edgerising ts) (ts_edgefalling ts) (ts_edgelevel ts) false.
+  mkts_full (ts_auto ts) (ts_autodelay ts) (ts_autoveto ts) (ts_level ts) (ts_levelrising ts) (ts_levellevel ts)
+       (ts_edge ts) (ts_edgerising ts) (ts_edgefalling ts) (ts_edgelevel ts) false (ts_emt_nmono ts) (ts_emt_zero ts).
 
 (* PrepareRun: NewDataStreamProcessor (LastTrigger far in the past, empty stream), then the restored (or
    default) TriggerState with EdgeMulti forced off, then (fix commit) the record lengths copied into EMTState
@@ -63,13 +69,25 @@ Definition fresh_start_old (npre nsamp : Z) (restored : tstate) : dsp :=
 (* EMTState.NToKeepOnTrim: int(2*s.nsamp + 10) in int32 arithmetic *)
 Definition ntokeep (d : dsp) : Z := s32 (2 * d_emt_nsamp d + 10).
 
-(* DataStreamProcessor.ConfigureTrigger (fix commit: LastTrigger forgets to the far past, not to frame 0).
-   The error return (edge-multi with an invalid EMTState) cannot happen with edge-multi off. *)
-Definition cfg_trig (d : dsp) (ts : tstate) : dsp :=
+(* EMTState.valid() with nsamp/npre = int32 of the processor's record lengths *)
+Definition emt_valid (ts : tstate) (npre nsamp : Z) : bool :=
+  negb (ts_emt_zero ts && (s32 npre <? 4)) &&
+  negb (ts_emt_zero ts && (s32 nsamp - s32 npre <? 4)) &&
+  negb (ts_emt_nmono ts >? s32 nsamp - s32 npre).
+
+(* what an ACCEPTED ConfigureTrigger installs (fix commit: LastTrigger forgets to the far past, not to frame 0) *)
+Definition cfg_trig_do (d : dsp) (ts : tstate) : dsp :=
   mkdsp (d_nsamp d) (d_npre d) far_past (d_stream d) ts (s32 (d_nsamp d)) (s32 (d_npre d)).
 (* before the fix: a phantom trigger at frame 0 *)
 Definition cfg_trig_old (d : dsp) (ts : tstate) : dsp :=
   mkdsp (d_nsamp d) (d_npre d) 0 (d_stream d) ts (s32 (d_nsamp d)) (s32 (d_npre d)).
+
+(* DataStreamProcessor.ConfigureTrigger: a request that switches edge-multi on with an EMTState the record lengths
+   cannot support is REFUSED before anything is touched — (unchanged state, error).  Otherwise the state is
+   installed and LastTrigger forgotten. *)
+Definition cfg_trig (d : dsp) (ts : tstate) : dsp * bool :=
+  if ts_emulti ts && negb (emt_valid ts (d_npre d) (d_nsamp d)) then (d, true)
+  else (cfg_trig_do d ts, false).
 
 (* AnySource.ConfigurePulseLengths: the validity rule, then DataStreamProcessor.ConfigurePulseLengths.
    Returns (new state, error?) — an invalid request changes nothing. *)
@@ -278,7 +296,7 @@ Definition step (d : dsp) (o : op) : option dsp * obs :=
       | Panic => (None, OPanic)
       | Ok (d', recs) => (Some d', ORecs recs (zlen (st_data (d_stream d'))) (st_first (d_stream d')))
       end
-  | CfgTrig ts => (Some (cfg_trig d ts), OCfg false)
+  | CfgTrig ts => let (d', err) := cfg_trig d ts in (Some d', OCfg err)
   | CfgLen nsamp npre => let (d', err) := cfg_len d nsamp npre in (Some d', OCfg err)
   end.
 
@@ -296,7 +314,7 @@ Fixpoint run (d : dsp) (ops : list op) : list obs :=
 (* the same with the pre-fix control functions, for the refutation theorems *)
 Definition step_old (d : dsp) (o : op) : option dsp * obs :=
   match o with
-  | CfgTrig ts => (Some (cfg_trig_old d ts), OCfg false)
+  | CfgTrig ts => if snd (cfg_trig d ts) then (Some d, OCfg true) else (Some (cfg_trig_old d ts), OCfg false)
   | _ => step d o
   end.
 Fixpoint run_old (d : dsp) (ops : list op) : list obs :=
